@@ -45,6 +45,9 @@ pub trait MacroService {
 
     #[endpoint(method = POST, path = "/m/cookie")]
     fn cookie(&self, #[auth(cookie_name = "SID")] token: BearerToken, #[body] secret: String) -> Result<(), Error>;
+    // the negotiation headers declared as (non-safe) header arguments of their own
+    #[endpoint(method = POST, path = "/m/typed", produces = StdResponseSerializer)]
+    fn typed(&self, #[header(name = "Content-Type")] media: String, #[header(name = "Accept")] accept: String, #[body] secret: String) -> Result<String, Error>;
 }
 
 #[conjure_endpoints(name = "MacroService")]
@@ -66,6 +69,9 @@ pub trait AsyncMacroService {
 
     #[endpoint(method = POST, path = "/m/cookie")]
     async fn cookie(&self, #[auth(cookie_name = "SID")] token: BearerToken, #[body] secret: String) -> Result<(), Error>;
+    // the negotiation headers declared as (non-safe) header arguments of their own
+    #[endpoint(method = POST, path = "/m/typed", produces = StdResponseSerializer)]
+    async fn typed(&self, #[header(name = "Content-Type")] media: String, #[header(name = "Accept")] accept: String, #[body] secret: String) -> Result<String, Error>;
 }
 
 impl MacroService for MacroHandler {
@@ -80,6 +86,9 @@ impl MacroService for MacroHandler {
     fn cookie(&self, token: BearerToken, secret: String) -> Result<(), Error> {
         self.hit(format!("cookie({},{})", token.as_str(), secret));
         Ok(())
+    }    fn typed(&self, media: String, accept: String, secret: String) -> Result<String, Error> {
+        self.hit(format!("typed({},{},{})", media, accept, secret));
+        Ok("ret".into())
     }
 }
 
@@ -95,6 +104,9 @@ impl AsyncMacroService for MacroHandler {
     async fn cookie(&self, token: BearerToken, secret: String) -> Result<(), Error> {
         self.hit(format!("cookie({},{})", token.as_str(), secret));
         Ok(())
+    }    async fn typed(&self, media: String, accept: String, secret: String) -> Result<String, Error> {
+        self.hit(format!("typed({},{},{})", media, accept, secret));
+        Ok("ret".into())
     }
 }
 
